@@ -12,8 +12,8 @@ use std::io::Write;
 use std::time::Instant;
 
 pub fn generators(tier: &str) -> Vec<StreamGen> {
-    let mut v = super::c04::streams(tier);
-    v.extend(super::c05::streams(tier));
+    let mut v = super::c04::streams_with(tier, 3);
+    v.extend(super::c05::streams_with(tier, 3));
     v
 }
 
